@@ -8,7 +8,8 @@ theorem slot_lt' (s : Db) (j : Nat) (sl : Slot) (h : s.slot? j = some sl) : j < 
   | none => rw [hg] at h; cases h
   | some o => rw [List.getElem?_eq_some_iff] at hg; exact hg.1
 
-theorem keep_create (j a b : Nat) (s : Db) (id : RegionId) (slj : Slot) (hsj : s.slot? j = some slj) (hb : b ≤ s.fileLen) :
+theorem keep_create (j a b : Nat) (s : Db) (id : RegionId) (slj : Slot) (hsj : s.slot? j = some slj) (hb : b ≤ s.fileLen)
+    (hjr : j < s.rfile.length) :
     Keep j a b s (s.create id).1 := by
   unfold Db.create
   cases hf : s.findId id with
@@ -18,6 +19,7 @@ theorem keep_create (j a b : Nat) (s : Db) (id : RegionId) (slj : Slot) (hsj : s
     generalize hs0 : (if (bestFit s.holes Gen.PAGE_SIZE).isNone = true then s.setMinLen (s.layoutLen + Gen.PAGE_SIZE) else s) = s0
     have k0 : Keep j a b s s0 := by rw [← hs0]; split; exact keep_setMinLen _ _ _ _ _ hb; exact Keep.refl _ _ _ _
     obtain ⟨slj0, hsj0, _⟩ := md_of_keep k0 slj hsj
+    have hjr0 : j < s0.rfile.length := Nat.lt_of_lt_of_le hjr k0.2.2.2
     have key : ∀ (s1 : Db) (start : Nat), Keep j a b s s1 → (∃ x, s1.slot? j = some x) →
         Keep j a b s (if (!idValid id) = true then (s1, Out.panic "validate_id") else
           (let idx := match s1.slots.findIdx? (·.isNone) with | some i => i | none => s1.slots.length
@@ -26,6 +28,7 @@ theorem keep_create (j a b : Nat) (s : Db) (id : RegionId) (slj : Slot) (hsj : s
            let s3 := if idx < s2.slots.length then s2.setSlot idx (some sl) else { s2 with slots := s2.slots ++ [some sl] }
            ({ s3 with regions := s3.regions ++ [(start, idx)] }, Out.okN idx))).1 := by
       intro s1 start k1 hx
+      have hjr1 : j < s1.rfile.length := Nat.lt_of_lt_of_le hjr k1.2.2.2
       obtain ⟨x, hx⟩ := hx
       split
       · exact k1
@@ -46,11 +49,11 @@ theorem keep_create (j a b : Nat) (s : Db) (id : RegionId) (slj : Slot) (hsj : s
             cases hsl : s1.slots[i] with
             | none => rw [hsl] at hx; cases hx
             | some y => rw [hsl] at hp; simp at hp
-        have k2 := k1.trans (keep_regionsSetMinSlots j a b s1 (idx + 1))
+        have k2 := k1.trans (keep_regionsSetMinSlots j a b s1 (idx + 1) hjr1)
         have hsl2 : (s1.regionsSetMinSlots (idx + 1)).slots = s1.slots := by unfold Db.regionsSetMinSlots; split <;> rfl
         split
-        · exact (k2.trans (keep_setSlot_ne j a b _ idx _ hne)).trans (keep_of_eq _ _ _ _ _ rfl rfl rfl)
-        · refine k2.trans ⟨?_, ⟨[], by simp, by simp⟩, Nat.le_refl _⟩
+        · exact (k2.trans (keep_setSlot_ne j a b _ idx _ hne)).trans (keep_of_eq _ _ _ _ _ rfl rfl rfl rfl)
+        · refine k2.trans ⟨?_, ⟨[], by simp, by simp⟩, Nat.le_refl _, Nat.le_refl _⟩
           unfold Db.slot?
           simp only []
           rw [List.getElem?_append_left (by rw [hsl2]; exact hjl)]
@@ -61,7 +64,7 @@ theorem keep_create (j a b : Nat) (s : Db) (id : RegionId) (slj : Slot) (hsj : s
       | error e => exact k0
       | ok hs =>
         simp only []
-        exact key { s0 with holes := hs } hstart (k0.trans (keep_of_eq _ _ _ _ _ rfl rfl rfl)) ⟨slj0, hsj0⟩
+        exact key { s0 with holes := hs } hstart (k0.trans (keep_of_eq _ _ _ _ _ rfl rfl rfl rfl)) ⟨slj0, hsj0⟩
     | none =>
       simp only []
       exact key s0 s0.layoutLen k0 ⟨slj0, hsj0⟩
@@ -88,7 +91,7 @@ theorem idx_ne (s : Db) (i : RegionId) (idx j : Nat) (slj : Slot) (hf : s.findId
 /-- **one request that does not name region `j`**: its metadata stays, and nothing the request stores lands in the pages
 that hold its data, nor is the file cut below them -/
 theorem keep_step (s : Db) (op : Op) (hinv : RInv s) (hi : InF s) (ha : Al s) (j : Nat) (slj : Slot) (hsj : s.slot? j = some slj)
-    (hnt : ¬Touches slj.md.id op) :
+    (hnt : ¬Touches slj.md.id op) (hjr : j < s.rfile.length) :
     Keep j slj.md.start (slj.md.start + ceilPage slj.md.len) s (step s op).1 := by
   have hbj := hinv.bnd j slj hsj
   have hcr : ceilPage slj.md.len ≤ slj.md.reserved := ceil_le_reserved _ _ hbj.1 (alE_slot s ha j slj hsj).2
@@ -102,7 +105,7 @@ theorem keep_step (s : Db) (op : Op) (hinv : RInv s) (hi : InF s) (ha : Al s) (j
     | none => exact Keep.refl _ _ _ _
     | some idx => exact keep_writeWith j s hinv hi idx slj d at_ tr hsj (idx_ne s i idx j slj hf hsj hne) _ hb
   cases op with
-  | create id => exact keep_create j _ _ s id slj hsj hfile
+  | create id => exact keep_create j _ _ s id slj hsj hfile hjr
   | write i d => exact hwr i d none false hnt
   | writeAt i a d => exact hwr i d (some a) false hnt
   | truncateWrite i a d => exact hwr i d (some a) true hnt
@@ -158,6 +161,6 @@ theorem keep_step (s : Db) (op : Op) (hinv : RInv s) (hi : InF s) (ha : Al s) (j
   | setMinLen n => exact keep_setMinLen j _ _ s n hfile
   | setMinRegions n =>
     simp only [step, Db.setMinRegions]
-    exact (keep_regionsSetMinSlots j _ _ s n).trans (keep_setMinLen j _ _ _ _ (by unfold Db.regionsSetMinSlots; split <;> exact hfile))
+    exact (keep_regionsSetMinSlots j _ _ s n hjr).trans (keep_setMinLen j _ _ _ _ (by unfold Db.regionsSetMinSlots; split <;> exact hfile))
 
 end AnyDB.C05r
